@@ -31,6 +31,9 @@ class _Gen:
         if "helper" in self.features:
             helpers = "int hf(const int x) {\n  return 3 * x + 1;\n}\n\n"
         body = "".join(nests)
+        if "@atomic out1[7] += 2;" in body and "out1[7] = out1[7] +" in body:
+            # one location updated through the basic form (+=) and through a general form (assignment / block)
+            self.features.add("atomic-mixed-forms")
         if "host-decl" in self.features:
             body = "  const int m = n / 2 + 3;\n" + body
         sig = ["const int n", "const int *in0", "const int *in1", "int *out0", "int *out1", "float *fout"]
@@ -234,6 +237,10 @@ class _Gen:
             elif x < 0.76:
                 self.features.add("atomic-block")
                 out += pad + "@atomic {\n%s  out1[6] = out1[6] + in0[%s];\n%s  out1[7] = out1[7] + 1;\n%s}\n" % (pad, g, pad, pad)
+            elif x < 0.775:
+                # the basic form (+=) on a location that the general forms update too
+                self.features.add("atomic-basic-on-general-location")
+                out += pad + "@atomic out1[7] += 2;\n"
             elif x < 0.82:
                 # a general (non += / ++) update in a single statement, on the locations the block form updates too
                 self.features.add("atomic-assign")
